@@ -378,6 +378,18 @@ def cascade_case(ctx, scen, i):
     r = g.rng
     first = [11, 19, 27, 43, 59]       # 1(size)+1(len)+klen+2(voff)+1(next=0)   = class
     later = [10, 18, 26, 42, 58]       # ... +2(next)                            = class
+    if i % 4 == 3:
+        # cascade started by a DELETE: chain Q -> P -> K -> X (X oldest).  X, P, Q fill their slots exactly, K has one byte of
+        # slack.  X moves past 16 KiB (K absorbs the wider link); deleting K makes P link to X: P's link grows, P moves, Q follows.
+        X, K, P, Q = b'X' * r.choice(first), b'K' * (r.choice(later) - 1), b'P' * r.choice(later), b'Q' * r.choice(later)
+        keys = [X, K, P, Q]
+        lines = ['db d0 db', 'map m0 d0 bytes m B1'] + ['put m0 %s z%dx%d' % (k.hex(), 3, j) for j, k in enumerate(keys)]
+        lines += ['put m0 z17000x7 z17000x9', 'put m0 %s z600x1' % X.hex()] + ['get m0 %s' % k.hex() for k in keys]
+        lines += ['del m0 %s' % K.hex()] + ['get m0 %s' % k.hex() for k in keys] + ['len m0', 'iter m0 iter']
+        lines += ['del m0 %s' % P.hex(), 'put m0 %s z9x9' % K.hex()] + ['get m0 %s' % k.hex() for k in keys]
+        lines += ['iter m0 keys', 'stats m0', 'len m0', 'closeall', 'snap db']
+        pair(ctx, 'cascade', i, lines, files_oracle=True, op_timeout=60)
+        return
     nk = r.randrange(2, 6)
     keys = [bytes([65 + j]) * (r.choice(first) if j == 0 else r.choice(later)) for j in range(nk)]
     lines = ['db d0 db', 'map m0 d0 bytes m B1']
